@@ -21,6 +21,26 @@ CHECKS = {
    text="Exhaustive: 31 value kinds (incl. unknown identifier, typed nil pointers, empty collections, other numeric widths) x 6 contexts; all chains of <=3 (quick) / <=5 (thorough) probe conditions x every truth assignment x with/without else x 5 placements. TLC checks KindTheorem and ChainTheorem (exactly the first truthy branch, evaluated conditions are exactly the prefix, contexts agree) on the reference semantics; the real renderer's output and recorded probe sequence must equal the model's.",
    note="Trusted: TLC, PlushSem.tla, harness kind registry. Truthiness of HTMLer values with empty HTML is not covered (statement speaks of empty HTML values).",
    design="§6 C07"),
+ "C05": dict(
+   technique="TLC explicit-state enumeration of fault positions (GenFaults.tla) over the TLA+ reference semantics with NoSilentFailure as invariant; every case replayed into real plush.Render with an instrumented failing helper (oracle fires when the helper was really invoked)",
+   text="Exhaustive within the bound: 4 faults x 19 statement contexts x stacks of <=1 (quick) / <=2 (thorough) of 35 expression contexts (about 3k / 109k programs). TLC checks on the reference semantics that a reached failing helper makes the render an error wrapping the sentinel with no output. On the real code, independent of the model: whenever the failing helper was invoked, err != nil, errors.Is(err, sentinel), output empty; plus model outcome and probe sequence equality.",
+   note="Trusted: TLC, PlushSem.tla, harness helpers. Positions are those of the generator's grammar; deeper nestings only in thorough.",
+   design="§6 C05"),
+ "C08": dict(
+   technique="TLC explicit-state enumeration of iterables x loop bodies (GenLoops.tla) over the TLA+ reference semantics, loop-unrolling equivalence as TLC invariant; loop and unrolled programs replayed into real plush.Render",
+   text="Exhaustive within the bound: 28 iterables x all bodies of <=2 (quick) / <=3 (thorough) statements over 12 building blocks. TLC checks UnrollTheorem (loop = body instantiated per element, for control-free bodies) and KindTheorem (nil renders nothing, non-iterable is an error, scope depth restored). The real renderer must produce the model's output for the loop and for the unrolled program; map loops are compared as a set of admissible orders.",
+   note="Trusted: TLC, PlushSem.tla. `return` inside a loop body follows the behaviour pinned by the repository's own test.",
+   design="§6 C08"),
+ "C09": dict(
+   technique="TLC explicit-state enumeration of scope nestings (GenScopes.tla) with ScopeTheorem/ProbeTheorem invariants on the reference semantics' scope stack; replay into real plush.Render; TLC trace validation (ContextTrace.tla) of the context operations the real evaluator performs while rendering the generated programs",
+   text="Exhaustive within the bound: all nestings of depth <=2 (quick) / <=3 (thorough) of 5 scope-opening constructs x 2 binding modes. TLC checks that pushes/pops balance, outer bindings are framed and nothing leaks; the real renderer's probe output must equal the model's; the evaluator's recorded context constructions/writes/reads must be accepted by the Context machine.",
+   note="Trusted: TLC, PlushSem.tla, verif hooks (guarded, add-only).",
+   design="§6 C09"),
+ "C16": dict(
+   technique="TLC explicit-state enumeration of decision-chain functions x argument tuples x uses (GenFuncs.tla) with ChainTheorem (reference semantics = declarative first-match reading) as invariant; replay into real plush.Render with probes",
+   text="Exhaustive within the bound: functions of 0..2 (quick) / 0..3 (thorough) parameters, chains of <=1 / <=2 links, all argument tuples over a pool of 7 (incl. caller variables named like the parameters), 6 uses of the result. Real output and probe sequence must equal the model's.",
+   note="Trusted: TLC, PlushSem.tla. Recursion and bodies that print before returning are covered by fixed extra programs only.",
+   design="§6 C16"),
 }
 
 NOT_YET = "check not built yet in this session (work in progress, see DESIGN.md §8)"
